@@ -30,8 +30,10 @@ ASSUMPTIONS = [
     'is under observation',
     'SQLite file; one fresh interpreter per run',
 ]
-FLOORS = {'quick': {'nontrivial': 40, 'rejections_checked': 40},
-          'thorough': {'nontrivial': 800, 'rejections_checked': 800}}
+FLOORS = {'quick': {'nontrivial': 40, 'rejections_checked': 40,
+                    'm2m_edit': 5, 'with_migration_app': 10},
+          'thorough': {'nontrivial': 800, 'rejections_checked': 800,
+                       'm2m_edit': 100, 'with_migration_app': 200}}
 SIZES = {'quick': 96, 'thorough': 1600}
 TIMEOUT = {'quick': 170, 'thorough': 1700}
 KINDS = ('drop', 'duplicate', 'swap', 'missing_field', 'missing_model',
@@ -57,6 +59,12 @@ def perturb(rng, edits, spec0):
     edits = copy.deepcopy(edits)
     kinds = list(KINDS)
     rng.shuffle(kinds)
+    m2m = [i for i, e in enumerate(edits) if e['op'] == 'add_field' and
+           e['fdef']['kind'] == 'ManyToMany']
+    if m2m and rng.random() < 0.6:
+        edits.insert(m2m[0] + rng.choice([0, 1]),
+                     copy.deepcopy(edits[m2m[0]]))
+        return 'duplicate', edits
     if any(e.get('new_kind') for e in edits) and rng.random() < 0.6:
         # aim at the type-changing NOT NULL ChangeField
         for e in edits:
@@ -192,6 +200,23 @@ def run_case(desc):
                 stats['type_null_edit'] = 1
             except Exception:
                 pass
+    # a many-to-many field added by the evolution (its duplicate must be
+    # refused like that of any other field)
+    if rng.random() < 0.25 and h.specs[1].get('app1'):
+        mods = sorted(h.specs[1]['app1'])
+        m = rng.choice(mods)
+        e = {'op': 'add_field', 'app': 'app1', 'model': m, 'name': 'mm9',
+             'fdef': {'kind': 'ManyToMany',
+                      'to': 'app1.%s' % rng.choice(mods)}}
+        try:
+            spec1 = E.apply_edit(h.specs[1], e)
+            seqcase._validate_spec(spec1)
+            edits = edits + [e]
+            h.steps[0] = edits
+            h.specs[1] = spec1
+            stats['m2m_edit'] = 1
+        except Exception:
+            pass
     for e in edits:
         # null=False spelled out on some AddFields (legal, redundant)
         if e['op'] == 'add_field' and not e['fdef'].get('null') and \
@@ -278,6 +303,9 @@ def run_case(desc):
                'with_migration_app': with_mig,
                # the (perturbed) evolution holds a type-changing ChangeField
                # that makes a nullable column NOT NULL without saying null=
+               'has_notnull_typechange': any(
+                   e.get('new_kind') and e['attrs'].get('null') is False
+                   for e in pedits),
                'has_implicit_notnull_typechange': any(
                    e.get('new_kind') and e['attrs'].get('null') is False
                    and not e.get('explicit_null') for e in pedits)}
